@@ -330,3 +330,160 @@ add('C18', 'twin', 'stream-choice-reversed', [(I, '''        sys.stdout
 
     default_render_to_stream''')])
 add('C18', 'twin', 'setdefault-dict-copy', [(I, 'new_defaults = {**_default_config}', 'new_defaults = dict(_default_config)')])
+
+# ----------------------------------------------------------------------------- C13 / C14
+add(('C13', 'C14'), 'breaker', 'end-visit-not-in-finally', [(P, '''    ctx.start_visit(value)
+    try:
+        return _run_pretty_visited(pretty_fn, value, ctx, trailing_comment)
+    finally:
+        # Whatever happens while printing value (an exception raised
+        # here may be caught by an enclosing printer's handler), value
+        # is no longer being visited.
+        ctx.end_visit(value)
+''', '''    ctx.start_visit(value)
+    doc = _run_pretty_visited(pretty_fn, value, ctx, trailing_comment)
+    ctx.end_visit(value)
+    return doc
+''')], 'C1')
+add('C13', 'breaker', 'end-visit-removed', [(P, '''    finally:
+        # Whatever happens while printing value (an exception raised
+        # here may be caught by an enclosing printer's handler), value
+        # is no longer being visited.
+        ctx.end_visit(value)
+''', '''    finally:
+        pass
+''')], 'C13.a')
+add('C13', 'breaker', 'marker-test-after-start', [(P, '''    if ctx.is_visited(value):
+        return _pretty_recursion(value)
+
+    ctx.start_visit(value)
+    try:''', '''    ctx.start_visit(value)
+    if ctx.is_visited(value):
+        return _pretty_recursion(value)
+    try:''')], 'C13.a')
+add('C13', 'breaker', 'visited-copied-per-level', [(P, '''    def nested_call(self):
+        return self._replace(depth_left=self.depth_left - 1)''', '''    def nested_call(self):
+        return self._replace(depth_left=self.depth_left - 1, visited=set(self.visited))''')], 'C13.b')
+add('C13', 'breaker', 'visited-default-shared', [(P, '''        visited=None,
+        multiline_strategy=MULTILINE_STRATEGY_PLAIN,''', '''        visited=set(),
+        multiline_strategy=MULTILINE_STRATEGY_PLAIN,''')], 'C13.c')
+add('C13', 'breaker', 'toplevel-visited-module-global', [(P, '''            visited=set(),
+            max_seq_len=max_seq_len,''', '''            visited=_VISITED,
+            max_seq_len=max_seq_len,'''), (P, 'UNSET_SENTINEL = object()\n', 'UNSET_SENTINEL = object()\n_VISITED = set()\n')], 'C13.c')
+add('C13', 'breaker', 'register-without-wrapper', [(P, 'pretty_dispatch.register(type, partial(_run_pretty, fn))', 'pretty_dispatch.register(type, fn)')])
+add('C13', 'breaker', 'visited-keyed-by-value', [(P, '''    def start_visit(self, value):
+        self.visited.add(id(value))''', '''    def start_visit(self, value):
+        self.visited.add(repr(value))''')], 'C13.b')
+add('C13', 'breaker', 'sequence-docs-lazy', [(P, '''def sequence_of_docs(ctx, left, docs, right, dangle=False, force_break=False):
+    docs = list(docs)
+''', '''def sequence_of_docs(ctx, left, docs, right, dangle=False, force_break=False):
+    docs = iter(docs)
+''')], 'C13.e')
+add('C13', 'breaker', 'dict-printer-calls-list-printer-directly', [(P, '''        vdoc = pretty_python_value(
+            v,
+            ctx=(
+                ctx
+                .nested_call()
+                .use_multiline_strategy(MULTILINE_STRATEGY_INDENTED)
+            ),
+        )''', '''        if type(v) is list:
+            vdoc = pretty_bracketable_iterable(v, ctx.nested_call())
+        else:
+            vdoc = pretty_python_value(
+                v,
+                ctx=(
+                    ctx
+                    .nested_call()
+                    .use_multiline_strategy(MULTILINE_STRATEGY_INDENTED)
+                ),
+            )''')], 'C13.d')
+add('C14', 'breaker', 'handler-narrowed', [(P, '''        try:
+            doc = pretty_fn(value, ctx)
+        except Exception as e:
+            _warn_about_bad_printer(pretty_fn, value, exc=e)
+            doc = repr(value)
+
+    if not (''', '''        try:
+            doc = pretty_fn(value, ctx)
+        except (TypeError, ValueError, AttributeError) as e:
+            _warn_about_bad_printer(pretty_fn, value, exc=e)
+            doc = repr(value)
+
+    if not (''')], 'C14.a')
+add('C14', 'breaker', 'trailing-path-typeerror-only', [(P, '''        except Exception as e:
+            _warn_about_bad_printer(pretty_fn, value, exc=e)
+            doc = repr(value)
+    else:
+        try:''', '''    else:
+        try:''')], 'C14.a')
+add('C14', 'breaker', 'retry-unguarded', [(P, '''                try:
+                    doc = pretty_fn(value, ctx)
+                except Exception as retry_exc:
+                    _warn_about_bad_printer(pretty_fn, value, exc=retry_exc)
+                    doc = repr(value)''', '''                doc = pretty_fn(value, ctx)''')])
+add('C14', 'breaker', 'fallback-str', [(P, '''        except Exception as e:
+            _warn_about_bad_printer(pretty_fn, value, exc=e)
+            doc = repr(value)
+
+    if not (''', '''        except Exception as e:
+            _warn_about_bad_printer(pretty_fn, value, exc=e)
+            doc = str(value)
+
+    if not (''')], 'C14.b')
+add('C14', 'breaker', 'fallback-silent', [(P, '''        except Exception as e:
+            _warn_about_bad_printer(pretty_fn, value, exc=e)
+            doc = repr(value)
+
+    if not (''', '''        except Exception as e:
+            doc = repr(value)
+
+    if not (''')], 'C14.b')
+add('C14', 'breaker', 'warning-category', [(P, '''            ''.join(format_exception(type(exc), exc, exc.__traceback__))
+        ),
+        UserWarning
+    )''', '''            ''.join(format_exception(type(exc), exc, exc.__traceback__))
+        ),
+        RuntimeWarning
+    )''')], 'C14.b')
+add('C14', 'breaker', 'validation-polarity', [(P, '''    if not (
+        isinstance(doc, str) or
+        isinstance(doc, Doc)
+    ):''', '''    if not (
+        isinstance(doc, str) and
+        isinstance(doc, Doc)
+    ):''')], 'C14.d')
+add('C14', 'breaker', 'validation-only-plain-path', [(P, '''        except Exception as e:
+            _warn_about_bad_printer(pretty_fn, value, exc=e)
+            doc = repr(value)
+    else:
+        try:''', '''        except Exception as e:
+            _warn_about_bad_printer(pretty_fn, value, exc=e)
+            doc = repr(value)
+        return doc
+    else:
+        try:''')], 'C14.d')
+add(('C13', 'C14'), 'twin', 'validation-tuple-isinstance', [(P, '''    if not (
+        isinstance(doc, str) or
+        isinstance(doc, Doc)
+    ):''', '''    if not isinstance(doc, (str, Doc)):''')])
+add(('C13', 'C14'), 'twin', 'inline-visited-helper', [(P, '''    ctx.start_visit(value)
+    try:
+        return _run_pretty_visited(pretty_fn, value, ctx, trailing_comment)
+    finally:''', '''    ctx.start_visit(value)
+    try:
+        doc = _run_pretty_visited(pretty_fn, value, ctx, trailing_comment)
+        return doc
+    finally:''')])
+add(('C13', 'C14'), 'twin', 'bare-except-exception-tuple', [(P, '''        try:
+            doc = pretty_fn(value, ctx)
+        except Exception as e:
+            _warn_about_bad_printer(pretty_fn, value, exc=e)
+            doc = repr(value)
+
+    if not (''', '''        try:
+            doc = pretty_fn(value, ctx)
+        except (Exception, ) as err:
+            _warn_about_bad_printer(pretty_fn, value, exc=err)
+            doc = repr(value)
+
+    if not (''')])
